@@ -2,7 +2,9 @@ package main
 
 import (
 	"fmt"
+	"go/token"
 	"go/types"
+	"os"
 	"math/big"
 	"strconv"
 	"strings"
@@ -245,6 +247,20 @@ func (e *Engine) vpCall(st *State, name string, args []Value, site ssa.Instructi
 		// (the rest of that function is outside this harness' claim); natively a no-op
 		st.ghost["cut:"+constStr(args[0], "vp.CutBefore callee")] = tTrue
 		e.res.Assumptions["cut: execution of the caller ends before its call to "+constStr(args[0], "")]++
+		ret(st, nil)
+	case "CutAt":
+		// symbolic execution returns from the function that reaches the source line containing
+		// the given text (unique in the harness' package); natively a no-op
+		pat := constStr(args[0], "vp.CutAt pattern")
+		loc := e.findSourceLine(pat)
+		if loc == "" {
+			unsup("vp.CutAt: pattern %q not found exactly once in package sources", pat)
+		}
+		if e.cutLines == nil {
+			e.cutLines = map[string]bool{}
+		}
+		e.cutLines[loc] = true
+		e.res.Assumptions["cut: the function reaching source line `"+pat+"` returns there (rest outside this harness)"]++
 		ret(st, nil)
 	case "Observe":
 		ret(st, nil)
@@ -588,4 +604,30 @@ func (e *Engine) itoa(n *Term) *Term {
 	}
 	neg := Concat(KStr("-"), &Term{S: "(str.from_int " + Neg(n).S + ")", Sort: SStr})
 	return e.name(Ite(Ge(n, KInt64(0)), pos, neg))
+}
+
+func (e *Engine) findSourceLine(pat string) string {
+	found := ""
+	n := 0
+	e.fset.Iterate(func(f *token.File) bool {
+		name := f.Name()
+		if !strings.HasPrefix(name, repoDir+"/") || strings.Contains(name, "zz_vp_") || strings.HasSuffix(name, "_test.go") {
+			return true
+		}
+		src, err := os.ReadFile(name)
+		if err != nil {
+			return true
+		}
+		for i, l := range strings.Split(string(src), "\n") {
+			if strings.Contains(l, pat) {
+				n++
+				found = fmt.Sprintf("%s:%d", name, i+1)
+			}
+		}
+		return true
+	})
+	if n != 1 {
+		return ""
+	}
+	return found
 }
